@@ -1,6 +1,7 @@
 ---------------------------- MODULE Trace_Config ----------------------------
 (* Trace validation of Config(source): one event per load of one spelling. *)
-(*   [cfg, layout, carrier, exc, calls, ncalls, rt = [exc, calls]]         *)
+(*   [cfg, layout, carrier, exc, calls, ncalls, rt = [exc, calls],         *)
+(*    again = [done, exc, calls, ncalls]]                                  *)
 (* rt: the configuration rebuilt from Call.config() of every call, loaded   *)
 (* again.                                                                   *)
 EXTENDS ConfigLoad, Json, IOUtils, TLCExt
@@ -23,6 +24,9 @@ Step ==
                /\ Clause(e, "c07_calls", e.exc = "" => AsSet(e.calls) = NormCalls(Calls(e.cfg, e.layout)))
                /\ Clause(e, "c07_count", e.exc = "" => e.ncalls = NCalls(e.cfg))
                /\ Clause(e, "c07_roundtrip", e.exc = "" => (e.rt.exc = "" /\ AsSet(e.rt.calls) = AsSet(e.calls)))
+               \* the very same source object loaded a second time (where it can be read twice) means the same
+               /\ Clause(e, "c07_again", (e.exc = "" /\ e.again.done) =>
+                                            (e.again.exc = "" /\ e.again.calls = e.calls /\ e.again.ncalls = e.ncalls))
        /\ cfgv' = e.cfg
        /\ last' = <<e.layout, e.carrier, Calls(e.cfg, e.layout)>>      \* ConfigLoad!Load bound to the logged spelling
        /\ IF l = Len(TraceLog) THEN PrintT(<<"DONE", l>>) ELSE TRUE
